@@ -72,8 +72,11 @@ static bool g_fake = false;
 static FakeRec g_rec;
 
 template <class R>
-static void fakeSyev(const char* jobz, const char* uplo, const long* n, R* a, const long* lda, R* w, const long* lwork,
-                     long* info) {
+static void fakeSyev(const char* jobz, const char* uplo, const long* n, R* a, const long* lda, R* w, R* work,
+                     const long* lwork, long* info) {
+  // LAPACK may use work[0 .. lwork): touch all of it, so that a work array shorter than the announced lwork is an
+  // ASan finding here (the real library is not instrumented)
+  for (long k = 0; k < *lwork; ++k) work[k] = (R)0;
   g_rec = FakeRec();
   g_rec.called = true;
   g_rec.jobz = *jobz; g_rec.uplo = *uplo; g_rec.n = (int)*n; g_rec.lda = (int)*lda; g_rec.lwork = (int)*lwork;
@@ -88,7 +91,8 @@ static void fakeSyev(const char* jobz, const char* uplo, const long* n, R* a, co
 }
 template <class R>
 static void fakeGeev(const char* jobvl, const char* jobvr, const long* n, R* a, const long* lda, R* wr, R* wi, R* vl,
-                     const long* ldvl, R* vr, const long* ldvr, const long* lwork, long* info) {
+                     const long* ldvl, R* vr, const long* ldvr, R* work, const long* lwork, long* info) {
+  for (long k = 0; k < *lwork; ++k) work[k] = (R)0;
   g_rec = FakeRec();
   g_rec.called = true;
   g_rec.jobvl = *jobvl; g_rec.jobvr = *jobvr; g_rec.n = (int)*n; g_rec.lda = (int)*lda; g_rec.lwork = (int)*lwork;
@@ -125,25 +129,29 @@ using sgeev_t = void (*)(const char*, const char*, const long*, float*, const lo
                          float*, const long*, float*, const long*, long*);
 void dsyev_(const char* jobz, const char* uplo, const long* n, double* a, const long* lda, double* w, double* work,
             const long* lwork, long* info) {
-  if (g_fake) return fakeSyev<double>(jobz, uplo, n, a, lda, w, lwork, info);
+  if (g_fake) return fakeSyev<double>(jobz, uplo, n, a, lda, w, work, lwork, info);
+  for (long k = 0; k < *lwork; ++k) work[k] = 0;
   static dsyev_t f = realSym<dsyev_t>("dsyev_");
   f(jobz, uplo, n, a, lda, w, work, lwork, info);
 }
 void ssyev_(const char* jobz, const char* uplo, const long* n, float* a, const long* lda, float* w, float* work,
             const long* lwork, long* info) {
-  if (g_fake) return fakeSyev<float>(jobz, uplo, n, a, lda, w, lwork, info);
+  if (g_fake) return fakeSyev<float>(jobz, uplo, n, a, lda, w, work, lwork, info);
+  for (long k = 0; k < *lwork; ++k) work[k] = 0;
   static ssyev_t f = realSym<ssyev_t>("ssyev_");
   f(jobz, uplo, n, a, lda, w, work, lwork, info);
 }
 void dgeev_(const char* jobvl, const char* jobvr, const long* n, double* a, const long* lda, double* wr, double* wi,
             double* vl, const long* ldvl, double* vr, const long* ldvr, double* work, const long* lwork, long* info) {
-  if (g_fake) return fakeGeev<double>(jobvl, jobvr, n, a, lda, wr, wi, vl, ldvl, vr, ldvr, lwork, info);
+  if (g_fake) return fakeGeev<double>(jobvl, jobvr, n, a, lda, wr, wi, vl, ldvl, vr, ldvr, work, lwork, info);
+  for (long k = 0; k < *lwork; ++k) work[k] = 0;
   static dgeev_t f = realSym<dgeev_t>("dgeev_");
   f(jobvl, jobvr, n, a, lda, wr, wi, vl, ldvl, vr, ldvr, work, lwork, info);
 }
 void sgeev_(const char* jobvl, const char* jobvr, const long* n, float* a, const long* lda, float* wr, float* wi,
             float* vl, const long* ldvl, float* vr, const long* ldvr, float* work, const long* lwork, long* info) {
-  if (g_fake) return fakeGeev<float>(jobvl, jobvr, n, a, lda, wr, wi, vl, ldvl, vr, ldvr, lwork, info);
+  if (g_fake) return fakeGeev<float>(jobvl, jobvr, n, a, lda, wr, wi, vl, ldvl, vr, ldvr, work, lwork, info);
+  for (long k = 0; k < *lwork; ++k) work[k] = 0;
   static sgeev_t f = realSym<sgeev_t>("sgeev_");
   f(jobvl, jobvr, n, a, lda, wr, wi, vl, ldvl, vr, ldvr, work, lwork, info);
 }
@@ -702,7 +710,8 @@ Result execHandTN(const std::vector<std::string>& w) {
   std::vector<std::vector<long>> Vi(n, std::vector<long>(n));
   for (int i = 0; i < n; ++i)
     for (int j = 0; j < n; ++j) Vi[i][j] = (long)V[i][j];
-  res.impl = "eff=" + intMat(eff) + " vals=" + listStr(vl) + " vecs=" + (wantVec ? intMat(Vi) : std::string("-"));
+  res.impl = "eff=" + intMat(eff) + " vals=" + listStr(vl) + " vecs=" + (wantVec ? intMat(Vi) : std::string("-")) +
+             " call=jobz=" + std::string(1, g_rec.jobz) + " uplo=" + std::string(1, g_rec.uplo) + " lwork=" + std::to_string(g_rec.lwork);
   // oracle: LAPACK must be given the matrix itself (it is symmetric), a large enough workspace, and eigenvector i must
   // come back as row i (column i of the Fortran result)
   std::string f;
@@ -795,7 +804,8 @@ Result execHandNs(const std::vector<std::string>& w) {
   std::vector<std::string> vs;
   for (int i = 0; i < (int)vals.size(); ++i) vs.push_back(std::to_string((long)vals[i].real()) + ":" + std::to_string((long)vals[i].imag()));
   res.impl = std::string("spectrum-of=") + (sees == "other" ? "other" : "A") + " vals=" + listStr(vs) + " right-eigenvectors-of=" + rightOf +
-             " vecs=" + (vec ? intMat(Vi) : std::string("-"));
+             " vecs=" + (vec ? intMat(Vi) : std::string("-")) +
+             " call=jobvl=" + std::string(1, g_rec.jobvl) + " jobvr=" + std::string(1, g_rec.jobvr) + " lwork=" + std::to_string(g_rec.lwork);
   std::string f;
   if (sees == "other") f = "FAIL LAPACK sees neither A nor its transpose";
   else if ((int)vals.size() != n) f = "FAIL wrong number of eigenvalues";
@@ -831,7 +841,8 @@ Result execHandNsfTN(const std::vector<std::string>& w) {
   std::string sees = seesWhat(n, Ai);
   std::vector<std::string> vs;
   for (int i = 0; i < n; ++i) vs.push_back(std::to_string((long)vals[i].real) + ":" + std::to_string((long)vals[i].imag));
-  res.impl = std::string("spectrum-of=") + (sees == "other" ? "other" : "A") + " vals=" + listStr(vs);
+  res.impl = std::string("spectrum-of=") + (sees == "other" ? "other" : "A") + " vals=" + listStr(vs) +
+             " call=jobvl=" + std::string(1, g_rec.jobvl) + " jobvr=" + std::string(1, g_rec.jobvr) + " lwork=" + std::to_string(g_rec.lwork);
   std::string f;
   if (sees == "other") f = "FAIL LAPACK sees neither A nor its transpose";
   else if (g_rec.lwork < 3 * n) f = "FAIL workspace too small";
